@@ -75,3 +75,11 @@ Example C14_prefix_keys_coexist :
   [ROk; ROk; ROk; RVal (bs "short"); RVal (bs "long"); RVal (bs "empty"); ROk; RVal (bs "long");
    RKeys (sort_bytes [k200; []])].
 Proof. vm_compute. reflexivity. Qed.
+
+(* ---------- tie to the source: the part of the model this property rests on is what /verif/translate derives from
+   /repo's Go source on this run (Generated/*.v are rewritten before every build; see DESIGN.md section 9) ---------- *)
+From HC.Generated Require Import SrcTables.
+From HC.Proofs Require Import TieTables.
+Theorem C14_source_fragments : src_fragment_size = Z.of_nat fragment_step + 1 /\ src_dir_marker = [dir_marker].
+Proof. exact tie_fragments. Qed.
+Print Assumptions C14_source_fragments.
